@@ -909,7 +909,7 @@ func NewMPReachNLRIDecodeFn[T any](fn func(t T, afi uint16, safi uint8, nh, nlri
 		if len(b) < int(nhLen)+1 { // reserved byte
 			return errors.Join(me, mpLenErr())
 		}
-		return errors.Join(me, fn(t, afi, safi, b[:nhLen], b[nhLen+1:]))
+		return errors.Join(me, fn(t, afi, safi, b[:nhLen], b[int(nhLen)+1:]))
 	}
 }
 
